@@ -130,13 +130,75 @@ type assumption func(a Atom, ifi *ssa.If) (bool, bool)
 
 // under builds an edge filter keeping only If-edges consistent with all assumptions.
 func (w *World) under(as ...assumption) edgeKeep {
-	return func(b *ssa.BasicBlock, i int) bool {
+	var keep edgeKeep
+	busy := map[*ssa.If]bool{}
+	// truth of a condition that is a boolean variable joined from several tests (`ok := a && b; ... if ok`): the value on
+	// every incoming edge that is itself consistent with the assumptions, when they all agree
+	var truth func(v ssa.Value, ifi *ssa.If, d int) (bool, bool)
+	truth = func(v ssa.Value, ifi *ssa.If, d int) (bool, bool) {
+		if d > 4 {
+			return false, false
+		}
+		switch x := v.(type) {
+		case *ssa.Const:
+			if b, ok := constBool(x); ok {
+				return b, true
+			}
+			return false, false
+		case *ssa.UnOp:
+			if x.Op == token.NOT {
+				t, ok := truth(x.X, ifi, d+1)
+				return !t, ok
+			}
+			return false, false
+		case *ssa.Phi:
+			val, n := false, 0
+			for k, e := range x.Edges {
+				pred := x.Block().Preds[k]
+				feasible := false
+				for si, sb := range pred.Succs {
+					if sb == x.Block() && keep(pred, si) {
+						feasible = true
+					}
+				}
+				if !feasible {
+					continue
+				}
+				t, ok := truth(e, ifi, d+1)
+				if !ok || (n > 0 && t != val) {
+					return false, false
+				}
+				val = t
+				n++
+			}
+			return val, n > 0
+		}
+		a := w.atom(v)
+		for _, f := range as {
+			if applies, want := f(a, ifi); applies {
+				if a.Neg {
+					return !want, true
+				}
+				return want, true
+			}
+		}
+		return false, false
+	}
+	keep = func(b *ssa.BasicBlock, i int) bool {
 		if len(b.Instrs) == 0 {
 			return true
 		}
 		ifi, ok := b.Instrs[len(b.Instrs)-1].(*ssa.If)
 		if !ok {
 			return true
+		}
+		if ph, isPhi := ifi.Cond.(*ssa.Phi); isPhi && !busy[ifi] {
+			busy[ifi] = true
+			t, known := truth(ph, ifi, 0)
+			busy[ifi] = false
+			if known {
+				return (i == 0) == t
+			}
 		}
 		a := w.atom(ifi.Cond)
 		// key value on this edge
@@ -151,6 +213,26 @@ func (w *World) under(as ...assumption) edgeKeep {
 		}
 		return true
 	}
+	return keep
+}
+
+// blockInCycle: b can reach itself.
+func (w *World) blockInCycle(b *ssa.BasicBlock) bool {
+	seen := map[*ssa.BasicBlock]bool{}
+	work := append([]*ssa.BasicBlock{}, b.Succs...)
+	for len(work) > 0 {
+		x := work[len(work)-1]
+		work = work[:len(work)-1]
+		if x == b {
+			return true
+		}
+		if seen[x] {
+			continue
+		}
+		seen[x] = true
+		work = append(work, x.Succs...)
+	}
+	return false
 }
 
 // pt is an instruction position.
